@@ -70,7 +70,10 @@ def run(cmd, cwd=None, timeout=None, env=None):
 
 # ---------------------------------------------------------------- specs
 def load_spec(pid):
-    with open(os.path.join(VERIF, "props", pid + ".json")) as f:
+    p = os.path.join(VERIF, "props", pid + ".json")
+    if not os.path.exists(p):
+        p = os.path.join(VERIF, "props", "wip", pid + ".json")   # under construction, not in MANIFEST
+    with open(p) as f:
         return json.load(f)
 
 
@@ -227,19 +230,21 @@ def audit_property_file(spec):
 
 
 # ---------------------------------------------------------------- harness
-def build_harness(profile="dev", timeout=2400):
+def build_harness(spec=None, profile="dev", timeout=2400):
+    """Build the group's harness binary (or the whole workspace when spec is None) against /repo."""
     env = {"CARGO_TARGET_DIR": TARGET, "RUSTFLAGS": "--cfg " + GUARD}
     lock_src = os.path.join(REPO, "Cargo.lock")
     with Lock("cargo"):
-        # keep the harness lock file in step with the repository's
         dst = os.path.join(HARNESS, "Cargo.lock")
         if not os.path.exists(dst):
             shutil.copy(lock_src, dst)
         cmd = ["cargo", "build", "--offline", "--quiet"]
+        if spec is not None:
+            cmd += ["-p", spec["harness_pkg"]]
         if profile == "release":
             cmd.append("--release")
         rc, out = run(cmd, cwd=HARNESS, timeout=timeout, env=env)
-    binp = os.path.join(TARGET, "release" if profile == "release" else "debug", "vh")
+    binp = os.path.join(TARGET, "release" if profile == "release" else "debug", spec["harness_bin"]) if spec else None
     return rc == 0, out, binp
 
 
@@ -362,7 +367,7 @@ def check(pid, tier="quick", seed=None, n_override=None, replay=None):
     notes = []
 
     # 1. harness (needed for tables)
-    ok, out, vh = build_harness(spec.get("harness_profile", "dev"))
+    ok, out, vh = build_harness(spec, spec.get("harness_profile", "dev"))
     if not ok:
         log(out[-3000:])
         broken.append("harness:build-failed")
